@@ -12,6 +12,18 @@ def hooks_commits():
 
 # id -> dict(engine, category, technique, text, note, design_ref)
 CHECKS = {
+ "C01": dict(engine="h_core", category="model_checking", design="§3 C01",
+   technique="explicit-state BFS over operation histories executed on the real code (fresh process per history, canonical-state de-duplication, warm non-initial roots) + preemption-bounded exhaustive schedule exploration of first-hit races",
+   text="Every history up to the stated depth over {create collector with filter F, drop, install/uninstall as a thread default, set global, emit, enabled! probe, rebuild_interest_cache, flip a dynamic filter} is executed through the real macros in a fresh process; after every emission the recording collector's log must equal the verdict of a cache-free reference filter for the collector the implementation reports as current. States are merged on model state + the cached interest/registration byte of every callsite + LevelFilter::current() + per-thread default identity. First-hit races are explored under the controlled scheduler.",
+   note="Assumes self-consistent filters (alphabet restriction) and SC at hook granularity for the race part. Depth/alphabet bounds are in the evidence; nothing beyond them is claimed."),
+ "C02": dict(engine="h_core", category="model_checking", design="§3 C02",
+   technique="explicit-state BFS over scope/global/emit histories on real threads (fresh process per history; de-duplicated, plus a no-dedup cross-check) + preemption-bounded exhaustive schedule exploration of the initialisation races",
+   text="All histories up to the stated depth of set_default/with_default (incl. panicking closures) open/close, repeated set_global_default attempts, emissions and Dispatch::default() queries on 2-3 real threads are executed in fresh processes and compared step by step (and by end-of-history probes on every thread) with a per-thread-stack + one-shot-global reference model; set_global_default || set_global_default || emit and scope || unscoped-emit races are explored over every interleaving up to the preemption bound.",
+   note="Scopes are properly nested (alphabet restriction). SC at hook granularity. F1 (stale thread-local `none`) was found by this check and repaired by a fix: commit; it is reported again if it returns."),
+ "C04": dict(engine="h_core", category="model_checking", design="§3 C04",
+   technique="stateless exhaustive schedule exploration with preemption bounding of real threads under a cooperative scheduler (fresh process per schedule)",
+   text="For each scenario (first hit of the same/different callsites racing with Dispatch creation, drop, set_default, set_global_default, rebuild_interest_cache) every interleaving with at most the stated number of preemptions, at the granularity of each hooked atomic operation and lock acquisition, is executed on the real code; each schedule is judged during the race (no delivery to a rejecting collector; an emission after a completed installation is judged by that collector; no panic/deadlock/livelock) and at quiescence (every registered callsite offered to every live collector, exact deliveries, max level not too low).",
+   note="SC at hook granularity; weak-memory reorderings and std RwLock writer-preference queueing are outside the model; collectors do not emit from register_callsite."),
  "C19": dict(engine="h_core", category="exploration", design="§3 C19",
    technique="exhaustive enumeration of a finite space (all operand pairs x operators, all spellings, all hint assignments; fresh process per MAX_LEVEL configuration)",
    text="Complete enumeration of the finite space the property quantifies over: every ordered pair of the 5 levels and 6 filters under every comparison operator, every conversion, every spelling (all case patterns, digits 0-99, noise on either side, truncations) and the MAX_LEVEL read-back for every 1- and 2-collector hint assignment, each compared with an integer rank table.",
